@@ -102,7 +102,7 @@ def gen_net(rng, opts=None):
         used = set()
         sigs = []
         if o.get("mux", True) and rng.random() < 0.3 and nbytes >= 2:
-            mx = gen_signal(rng, "mx%d" % k, nbytes, used, dict(o, maxwidth=rng.randint(1, 4), floats=False))
+            mx = gen_signal(rng, "mx%d" % k, nbytes, used, dict(o, maxwidth=rng.randint(1, 4), floats=False, intel_only=bool(o.get("arxml"))))
             if mx:
                 mx.update({"signed": False, "float": False, "mux": "M", "factor": "1", "offset": "0", "values": {}, "min": None, "max": None, "unit": ""})
                 sigs.append(mx)
@@ -117,13 +117,51 @@ def gen_net(rng, opts=None):
                     used |= gu
                 if not any(isinstance(s["mux"], int) for s in sigs):
                     mx["mux"] = None
+                elif o.get("arxml"):
+                    # the selector field of a MULTIPLEXED-I-PDU has no name (readers call it Multiplexor); Intel, no receivers
+                    mx.update({"name": "Multiplexor", "comment": "", "receivers": []})
+                elif o.get("sym"):
+                    # SYM: the multiplexer has no name of its own (readers call it <frame>_MUX); each group has a name
+                    mx["name"] = "Frame%d_MUX" % k
+                    mx["values_names"] = {str(g): "grp%d_%d" % (k, g) for g in sorted({s["mux"] for s in sigs if isinstance(s["mux"], int)})}
+                    mx["values"] = dict(mx["values_names"])
+                    mx["comment"] = ""
+        if o.get("extmux") and not sigs and nbytes >= 2 and rng.random() < 0.3:
+            # extended multiplexing: mxa selects {mxb (itself a multiplexer), ...}; mxb selects the x signals by value ranges
+            mxa = gen_signal(rng, "mxa%d" % k, nbytes, used, dict(o, maxwidth=3, floats=False))
+            mxb = gen_signal(rng, "mxb%d" % k, nbytes, used, dict(o, maxwidth=3, floats=False)) if mxa else None
+            if mxa and mxb:
+                for m in (mxa, mxb):
+                    m.update({"signed": False, "float": False, "factor": "1", "offset": "0", "values": {}, "min": None, "max": None, "unit": ""})
+                g0 = rng.randrange(1 << mxa["size"])
+                mxa["mux"] = "M"
+                mxb.update({"mux": "M", "muxval": g0, "muxer_for": mxa["name"], "grp": [[g0, g0]]})
+                sigs.extend([mxa, mxb])
+                base = set(used)
+                for j in range(rng.randint(1, 3)):
+                    gu = set(base)
+                    s = gen_signal(rng, "x%d_%d" % (k, j), nbytes, gu, o)
+                    if s:
+                        lo = rng.randrange(1 << mxb["size"])
+                        hi = rng.randint(lo, (1 << mxb["size"]) - 1)
+                        s.update({"mux": lo, "muxer_for": mxb["name"], "grp": [[lo, hi]] + ([[hi + 2, hi + 3]] if rng.random() < 0.3 else [])})
+                        sigs.append(s)
+                    used |= gu
+                if len(sigs) == 2:
+                    del sigs[:]
+                    used.clear()
         for j in range(rng.randint(1, o.get("maxsigs", 4))):
             s = gen_signal(rng, "s%d_%d" % (k, signo), nbytes, used, o)
             signo += 1
             if s:
                 sigs.append(s)
+        tx = rng.sample(ecus, min(len(ecus), rng.choice([0, 1, 1, 2]))) if o.get("multi_tx", True) else rng.sample(ecus, 1)
+        if o.get("arxml"):
+            # one port direction per frame and ECU: a sender is not also a receiver of the frame's signals
+            for s in sigs:
+                s["receivers"] = [r for r in s["receivers"] if r not in tx]
         frames.append({"name": "Frame%d" % k, "id": arbid, "ext": ext, "size": nbytes,
-                       "tx": rng.sample(ecus, min(len(ecus), rng.choice([0, 1, 1, 2]))) if o.get("multi_tx", True) else rng.sample(ecus, 1),
+                       "tx": tx,
                        "comment": rng.choice(["", "", "frame comment", "first line\nsecond line"]) if o.get("multiline", True) else rng.choice(["", "frame comment"]),
                        "cycle": rng.choice([None, None, 10, 100]), "signals": sigs})
     net = {"ecus": ecus, "frames": frames, "defs": {"frame": [], "signal": [], "ecu": [], "global": []}, "gattrs": {}, "ecu_attrs": {}, "ecu_comments": {},
@@ -178,12 +216,16 @@ def dec_norm(x):
 
 def expected_frame(f):
     """normal form a reader must produce for the described frame"""
+    muxer = next((s["name"] for s in f["signals"] if s["mux"] == "M" and "muxval" not in s), None)
+    f = dict(f, signals=[dict(s, muxer_for=s.get("muxer_for") or (muxer if isinstance(s["mux"], int) else None)) for s in f["signals"]])
     return {"id": f["id"], "ext": f["ext"], "name": f["name"], "size": f["size"], "transmitters": list(f["tx"]), "comment": f["comment"] or "",
             "cycle": f.get("cycle") or 0, "attrs": dict(f.get("attrs", {})), "group": f.get("group"),
             "signals": [{"name": s["name"], "attrs": dict(s.get("attrs", {})), "start": internal_start(s), "size": s["size"], "little": s["little"], "signed": s["signed"],
                          "float": s["float"], "factor": dec_norm(s["factor"]), "offset": dec_norm(s["offset"]),
                          "min": dec_norm(s["min"]), "max": dec_norm(s["max"]), "unit": s["unit"], "receivers": sorted(s["receivers"]),
-                         "mux": ("Multiplexor" if s["mux"] == "M" else s["mux"]), "values": dict(s["values"]), "comment": s["comment"] or ""}
+                         "mux": ("Multiplexor" if s["mux"] == "M" else s["mux"]), "values": dict(s["values"]), "comment": s["comment"] or "",
+                         "muxval": s.get("muxval", s["mux"] if isinstance(s["mux"], int) else None), "grp": [list(x) for x in s.get("grp", [])],
+                         "muxer_for": s.get("muxer_for")}
                         for s in f["signals"]]}
 
 
@@ -196,5 +238,6 @@ def got_frame(fr):
             "signals": [{"name": s.name, "attrs": {k: str(v) for k, v in s.attributes.items() if not k.startswith("Gen")}, "start": int(s.start_bit), "size": int(s.size), "little": bool(s.is_little_endian), "signed": bool(s.is_signed),
                          "float": bool(s.is_float), "factor": dec_norm(s.factor), "offset": dec_norm(s.offset), "min": dec_norm(s.min), "max": dec_norm(s.max),
                          "unit": s.unit or "", "receivers": sorted(s.receivers), "mux": ("Multiplexor" if s.is_multiplexer else s.mux_val),
-                         "values": {str(k): v for k, v in sorted(s.values.items(), key=lambda kv: int(kv[0]))}, "comment": s.comment or ""}
+                         "values": {str(k): v for k, v in sorted(s.values.items(), key=lambda kv: int(kv[0]))}, "comment": s.comment or "",
+                         "muxval": s.mux_val, "grp": [list(map(int, x)) for x in s.mux_val_grp], "muxer_for": s.muxer_for_signal}
                         for s in fr.signals]}
